@@ -58,6 +58,10 @@ type c11case struct {
 	left, right []c11person
 	lfam, rfam  string
 	kind        []string
+	// subL, subR: when not nil, only these positions of the documents' individuals are handed to Compare
+	// (the lists are proper sub-lists of their documents, as Spouses(), Children() or a slice of
+	// Individuals() are); the documents still hold the others
+	subL, subR []int
 }
 
 // c11gen: a base population and an independently edited copy (renumbered or shared pointers, dropped and
@@ -297,6 +301,27 @@ func c11gen(r *Rand) *c11case {
 		return sb.String()
 	}
 	cs.lfam, cs.rfam = fam(cs.left, "L"), fam(cs.right, "R")
+	if r.Chance(1, 5) && len(cs.left) >= 2 && len(cs.right) >= 2 {
+		// proper sub-lists of the documents' individuals (order kept): the documents hold people — often
+		// under the other side's pointers — that are not given to Compare
+		pick := func(n int) []int {
+			var keep []int
+			for i := 0; i < n; i++ {
+				if r.Chance(2, 3) {
+					keep = append(keep, i)
+				}
+			}
+			if len(keep) == n {
+				keep = keep[1:]
+			}
+			return keep
+		}
+		cs.subR = pick(len(cs.right))
+		if r.Bool() {
+			cs.subL = pick(len(cs.left))
+		}
+		cs.kind = append(cs.kind, "sub-lists of the documents' individuals")
+	}
 	return cs
 }
 
@@ -579,6 +604,20 @@ func c11one(c *Ctx, idx int) {
 		cs, c11forced, c11forcedJobs, c11forcedOpts = c11forced, nil, nil, nil
 	}
 	l, rt := c11build(cs.left, cs.lfam, 0), c11build(cs.right, cs.rfam, 1000)
+	sub := func(sd *c11side, keep []int) {
+		if keep == nil {
+			return
+		}
+		var xs gedcom.IndividualNodes
+		for _, i := range keep {
+			if i < len(sd.indis) {
+				xs = append(xs, sd.indis[i])
+			}
+		}
+		sd.indis = xs
+	}
+	sub(l, cs.subL)
+	sub(rt, cs.subR)
 	ids := map[*gedcom.IndividualNode]int{}
 	for p, id := range l.ids {
 		ids[p] = id
@@ -605,6 +644,9 @@ func c11one(c *Ctx, idx int) {
 	}
 	so := o.Go()
 	docs := l.text + "----\n" + rt.text
+	if cs.subL != nil || cs.subR != nil {
+		docs += fmt.Sprintf("---- given to Compare: left %v, right %v (the other records stay in their documents)\n", c11ptrs(l.indis), c11ptrs(rt.indis))
+	}
 	in := func(jobs, gmp int) map[string]interface{} {
 		return map[string]interface{}{"documents": docs, "options": o.wire(), "jobs": jobs, "gomaxprocs": gmp}
 	}
@@ -883,6 +925,47 @@ func c11boundary(c *Ctx) {
 		c11forced, c11forcedJobs, c11forcedOpts = cs, []int{2, 2, 3, 2, 8, 2, 3}, &o
 		c11one(c, 3000+q)
 	}
+	// sub-lists: the right (and left) list is a proper sub-list of its document, and the document holds,
+	// OUTSIDE the list, an individual under a pointer of the other side (x%3==1 of c11mixed: same pointer,
+	// same name and dates). Every Left/Right of the result must be an element of the given slices.
+	for q := 0; q < 8; q++ {
+		salt++
+		size := 7 + q
+		cs := c11mixed(size, size, salt)
+		var keepR, keepL []int
+		for x := 0; x < size; x++ {
+			// drop some right individuals that share the pointer of a left individual; keep the rest
+			if cs.right[x%len(cs.right)].ptr == cs.left[(x*2+1)%size].ptr && x%2 == q%2 {
+				continue
+			}
+			keepR = append(keepR, x)
+		}
+		for x := range cs.right {
+			if strings.HasPrefix(cs.right[x].ptr, "L") && (x+q)%2 == 0 {
+				// a same-pointer twin stays in the document but is not given to Compare
+				for y := range keepR {
+					if keepR[y] == x {
+						keepR = append(keepR[:y], keepR[y+1:]...)
+						break
+					}
+				}
+			}
+		}
+		if q%2 == 1 {
+			for x := 0; x < size; x++ {
+				if x%4 != 2 {
+					keepL = append(keepL, x)
+				}
+			}
+			cs.subL = keepL
+		}
+		cs.subR = keepR
+		cs.kind = []string{"boundary:sub-lists of the documents (same-pointer people outside the given list)"}
+		o := c12opts{maxYears: c12rat{3, 1}, minSim: c12rat{733, 1000}, minWeighted: c12rat{733, 1000}, iw: c12rat{12, 16}, pw: c12rat{1, 16}, sw: c12rat{1, 16},
+			cw: c12rat{2, 16}, ratio: c12rat{1, 2}, boost: c12rat{0, 1}, prefix: 8, prefPtr: []c12rat{{0, 1}, {733, 1000}}[q%2]}
+		c11forced, c11forcedJobs, c11forcedOpts = cs, []int{1, 2, 8}, &o
+		c11one(c, 4000+q)
+	}
 	// thresholds exactly 0 and exactly 1
 	for _, pp := range []c12rat{{0, 1}, {1, 1}} {
 		for _, mw := range []c12rat{{0, 1}, {1, 1}} {
@@ -1093,11 +1176,32 @@ func c11large(c *Ctx) {
 		}
 		return d
 	}
-	type lc struct{ nl, nr, jobs, notify int }
-	cases := []lc{{999, 0, 1, 1}, {1000, 0, 8, 0}, {1001, 0, 1, 0}, {0, 1001, 2, 1}, {1025, 0, 16, 2}, {2050, 0, 1, 0},
-		{1000, 1000, 8, 0}, {1001, 1001, 8, 1}, {1025, 1025, 3, 0}}
+	// mkp: the same people without identifiers, to be matched by pointer (both sides use the prefix P)
+	mkp := func(n int) *gedcom.Document {
+		var sb strings.Builder
+		for i := 0; i < n; i++ {
+			fmt.Fprintf(&sb, "0 @P%d@ INDI\n1 NAME P%d /Q/\n", i, i)
+		}
+		d, err := gedcom.NewDocumentFromString(sb.String())
+		if err != nil {
+			panic("c11: large document does not decode")
+		}
+		return d
+	}
+	// byPtr: both sides n individuals with the same pointers and PreferPointerAbove = 0: every pair is a
+	// certain match of the pointer pass and there is no similarity matrix left — n certain matches go
+	// through the jobs and results channels (capacity 1000 each) before `totals` is closed
+	type lc struct {
+		nl, nr, jobs, notify int
+		byPtr                bool
+	}
+	cases := []lc{{999, 0, 1, 1, false}, {1000, 0, 8, 0, false}, {1001, 0, 1, 0, false}, {0, 1001, 2, 1, false}, {1025, 0, 16, 2, false}, {2050, 0, 1, 0, false},
+		{1000, 1000, 8, 0, false}, {1001, 1001, 8, 1, false},
+		{999, 999, 1, 0, true}, {1000, 1000, 2, 1, true}, {1001, 1001, 1, 0, true}, {1999, 1999, 3, 0, true}, {2000, 2000, 1, 2, true}, {2001, 2001, 1, 0, true},
+		{2002, 2002, 1, 0, true}, {2018, 2018, 16, 1, true}, {2100, 2100, 8, 0, true}, {2002, 2002, 2, 0, false}}
 	if !c.Quick() {
-		cases = append(cases, lc{0, 2050, 8, 2}, lc{2050, 2050, 16, 0}, lc{1001, 1001, 1, 2}, lc{1000, 1001, 2, 0})
+		cases = append(cases, lc{0, 2050, 8, 2, false}, lc{2050, 2050, 16, 0, false}, lc{1001, 1001, 1, 2, false}, lc{1000, 1001, 2, 0, false},
+			lc{4100, 4100, 8, 0, true}, lc{4100, 4100, 1, 1, true}, lc{2100, 2100, 16, 3, false})
 	}
 	old := c11limit
 	c11limit = 60 * time.Second
@@ -1110,12 +1214,21 @@ func c11large(c *Ctx) {
 		}
 		ld, rd := mk("L", k.nl), mk("R", k.nr)
 		opts := gedcom.NewIndividualNodesCompareOptions()
+		if k.byPtr {
+			ld, rd = mkp(k.nl), mkp(k.nr)
+			opts.SimilarityOptions.PreferPointerAbove = 0
+		}
 		out := c11run(ld.Individuals(), rd.Individuals(), opts, k.jobs, 4, k.notify)
 		c.Eval()
-		c.Count("large:comparisons (999..2050 result rows)")
+		c.Count("large:comparisons (999..2100 result rows; one side empty, matched by _UID, matched by pointer)")
 		in := map[string]interface{}{"left": fmt.Sprintf("%d individuals @L0@..: 0 @Li@ INDI / 1 NAME Pi /QL/ / 1 _UID <uid i>", k.nl),
 			"right": fmt.Sprintf("%d individuals @R0@..: 0 @Ri@ INDI / 1 NAME Pi /QR/ / 1 _UID <uid i>", k.nr), "jobs": k.jobs, "gomaxprocs": 4,
 			"notifier": out.notify, "options": "NewIndividualNodesCompareOptions()"}
+		if k.byPtr {
+			in["left"] = fmt.Sprintf("%d individuals: 0 @Pi@ INDI / 1 NAME Pi /Q/ (i = 0..)", k.nl)
+			in["right"] = fmt.Sprintf("%d individuals with the same pointers and names", k.nr)
+			in["options"] = "NewIndividualNodesCompareOptions() with SimilarityOptions.PreferPointerAbove = 0"
+		}
 		if out.problem != "" {
 			if out.res == nil {
 				hangs++
@@ -1153,6 +1266,14 @@ func c11large(c *Ctx) {
 			c.Oracle("", "large comparison: the result is not the one-to-one matching by unique identifier", in, bad, fmt.Sprintf("%d results, every individual once", want))
 		}
 	}
+}
+
+func c11ptrs(xs gedcom.IndividualNodes) []string {
+	var out []string
+	for _, x := range xs {
+		out = append(out, x.Pointer())
+	}
+	return out
 }
 
 func c11has(xs []string, s string) bool {
@@ -1221,9 +1342,9 @@ func init() {
 	runners["C11"] = func(c *Ctx) {
 		c.Compare = c11cmp
 		c11skipped = func(s string) { c.Dist[s]++ }
-		c.Rule = "pairs of family-graph documents (edited copy: shared / disjoint / shifted pointers, dropped and added people, typos, identical twins, shared unique ids, a duplicated unique id, empty sides; a _UID duplicated among left individuals at varied positions i < j with j % Jobs < i % Jobs, run with those Jobs values) x options (default and random, thresholds incl. 0 and 1) x Jobs in {0,1,2,3,8,16} x GOMAXPROCS in {1,2,16}; every run goes through a delivery check (Compare in its own goroutine with a time limit; in turn no / unbuffered / buffered Notifier drained as gedcom diff does: it must be closed when Compare returns and the progress complete; empty left, empty right, both empty and single individuals included), is checked for validity, and all runs of a case are compared with the sequential one when no scores tie; cold-cache stress: documents whose only matches are _UID matches, decoded afresh for every run, Jobs {2,3,8,16} x GOMAXPROCS {2,16}, each compared with the sequential matching; large comparisons with 999..2050 result rows (one side empty; equal sides matched by _UID) under a time limit; the model is run on the sequential and on permuted arrival orders; distinct = distinct (sequential result, options)"
+		c.Rule = "pairs of family-graph documents (edited copy: shared / disjoint / shifted pointers, dropped and added people, typos, identical twins, shared unique ids, a duplicated unique id, empty sides; a _UID duplicated among left individuals at varied positions i < j with j % Jobs < i % Jobs, run with those Jobs values) x options (default and random, thresholds incl. 0 and 1) x Jobs in {0,1,2,3,8,16} x GOMAXPROCS in {1,2,16}; every run goes through a delivery check (Compare in its own goroutine with a time limit; in turn no / unbuffered / buffered Notifier drained as gedcom diff does: it must be closed when Compare returns and the progress complete; empty left, empty right, both empty and single individuals included), is checked for validity, and all runs of a case are compared with the sequential one when no scores tie; cold-cache stress: documents whose only matches are _UID matches, decoded afresh for every run, Jobs {2,3,8,16} x GOMAXPROCS {2,16}, each compared with the sequential matching; large comparisons with 999..2100 result rows (one side empty; equal sides matched by _UID or by pointer: 999/1000/1001/1999/2000/2001/2002/2018/2100 certain matches around the channel capacities) under a time limit; lists that are proper sub-lists of their documents; the model is run on the sequential and on permuted arrival orders; distinct = distinct (sequential result, options)"
 		c11boundary(c)
-		n := c.N(360, 6000)
+		n := c.N(300, 6000)
 		for i := 0; i < n; i++ {
 			c11one(c, i)
 		}
